@@ -161,3 +161,84 @@ def scenarios():
             if type(e).__name__ != "ClientLibrarySettingsError":
                 failures.append({"subset": bad, "what": "rejected with an unexpected exception", "error": repr(e)[:200]})
     return {"cases": cases, "failures": failures}
+
+
+def ext_files(ops_first):
+    """Compute-style extended operations: an operation service (polling method Get + List) and a service whose RPCs name it as operation service."""
+    from vf import genlab as G
+    from google.cloud import extended_operations_pb2 as X
+    T = G.T
+    P = ".acme.net.v1."
+    fd = G.new_file("acme/net/v1/networks.proto", "acme.net.v1", deps=G.STD_DEPS + ["google/cloud/extended_operations.proto"])
+    op = G.add_message(fd, "Operation")
+    st = op.enum_type.add(name="Status")
+    for i, nm in enumerate(("UNDEFINED_STATUS", "DONE", "RUNNING")):
+        st.value.add(name=nm, number=i)
+    for name, number, typ, code in (("name", 1, T.TYPE_STRING, X.NAME), ("http_error_message", 2, T.TYPE_STRING, X.ERROR_MESSAGE), ("http_error_status_code", 3, T.TYPE_INT32, X.ERROR_CODE)):
+        f = G.F(name, number, typ)
+        f.options.Extensions[X.operation_field] = code
+        op.field.append(f)
+    f = G.F("status", 4, T.TYPE_ENUM, type_name=P + "Operation.Status")
+    f.options.Extensions[X.operation_field] = X.STATUS
+    op.field.append(f)
+    f1 = G.F("operation", 1, T.TYPE_STRING, required=True)
+    f1.options.Extensions[X.operation_response_field] = "name"
+    G.add_message(fd, "GetGlobalOperationRequest", [f1, G.F("project", 2, T.TYPE_STRING, required=True)])
+    G.add_message(fd, "ListGlobalOperationsRequest", [G.F("project", 1, T.TYPE_STRING, required=True)])
+    G.add_message(fd, "OperationList", [G.F("items", 1, T.TYPE_MESSAGE, label=G.REPEATED, type_name=P + "Operation")])
+    G.add_message(fd, "Network", [G.F("name", 1, T.TYPE_STRING)])
+    f2 = G.F("project", 2, T.TYPE_STRING)
+    f2.options.Extensions[X.operation_request_field] = "project"
+    G.add_message(fd, "InsertNetworkRequest", [G.F("network_resource", 1, T.TYPE_MESSAGE, type_name=P + "Network"), f2])
+    f3 = G.F("project", 2, T.TYPE_STRING)
+    f3.options.Extensions[X.operation_request_field] = "project"
+    G.add_message(fd, "DeleteNetworkRequest", [G.F("network", 1, T.TYPE_STRING), f3])
+
+    def ops():
+        s = G.add_service(fd, "GlobalOperations", host="net.example.com")
+        m = G.add_method(s, "Get", P + "GetGlobalOperationRequest", P + "Operation", http=("get", "/v1/projects/{project}/global/operations/{operation}"), signatures=["project,operation"])
+        m.options.Extensions[X.operation_polling_method] = True
+        G.add_method(s, "List", P + "ListGlobalOperationsRequest", P + "OperationList", http=("get", "/v1/projects/{project}/global/operations"), signatures=["project"])
+
+    def nets():
+        s = G.add_service(fd, "Networks", host="net.example.com")
+        m = G.add_method(s, "Insert", P + "InsertNetworkRequest", P + "Operation", http=("post", "/v1/projects/{project}/global/networks"), body="network_resource",
+                         signatures=["project,network_resource"])
+        m.options.Extensions[X.operation_service] = "GlobalOperations"
+        m = G.add_method(s, "Delete", P + "DeleteNetworkRequest", P + "Operation", http=("delete", "/v1/projects/{project}/global/networks/{network}"), signatures=["project,network"])
+        m.options.Extensions[X.operation_service] = "GlobalOperations"
+    for part in ((ops, nets) if ops_first else (nets, ops)):
+        part()
+    return [fd]
+
+
+def extended_scenarios():
+    """Listed RPCs plus the extended-operation polling method they need; the library is generated and its client modules compile."""
+    from vf import genlab as G
+    from google.cloud import extended_operations_pb2 as X
+    failures, cases = [], 0
+    P = "acme.net.v1."
+    subsets = [["Networks.Insert"], ["Networks.Insert", "GlobalOperations.List"], ["GlobalOperations.List"], ["Networks.Insert", "GlobalOperations.Get"],
+               ["Networks.Delete", "Networks.Insert", "GlobalOperations.List"]]
+    for ops_first in (True, False):
+        for sub in subsets:
+            cases += 1
+            label = {"operation_service_declared_first": ops_first, "subset": sub}
+            yaml = {"type": "google.api.Service", "config_version": 3, "name": "net.example.com", "publishing": {"library_settings": [
+                {"version": "acme.net.v1", "python_settings": {"common": {"selective_gapic_generation": {"methods": [P + m for m in sub]}}}}]}}
+            want = set(sub) | ({"GlobalOperations.Get"} if any(m.startswith("Networks.") for m in sub) else set())
+            try:
+                api, res = G.generate(ext_files(ops_first), "autogen-snippets=false,transport=rest", service_yaml=yaml, extra_dep_modules=(X,))
+            except Exception as e:     # noqa
+                failures.append(dict(label, what="generation failed for a valid method list", error=repr(e)[:300]))
+                continue
+            got = {f"{s.name}.{m.name}" for s in api.services.values() for m in s.methods.values()}
+            if got != want:
+                failures.append(dict(label, what="exposed RPCs are not the listed ones plus the polling method they need", got=sorted(got), want=sorted(want)))
+            for f in res.file:
+                if f.name.endswith(".py") and "/services/" in f.name:
+                    try:
+                        compile(f.content, f.name, "exec")
+                    except SyntaxError as e:
+                        failures.append(dict(label, what="emitted module does not compile", file=f.name, error=str(e)[:120]))
+    return {"cases": cases, "failures": failures}
